@@ -254,7 +254,7 @@ def obligations(tier):
         # largest difference just below a power of two, three cells: the
         # rounding carried from the second cell meets the byte range
         for e in (-1, 0):
-            obs.append(Pack((1, 3), (e, e), 400000, 16.0, False, 'below'))
+            obs.append(Pack((1, 3), (e, e), 400000, 4.0, False, 'below'))
     else:
         for sh in [(1, 2), (1, 3), (2, 2), (1, 4), (2, 3)]:
             for b in [(-20, -11), (-10, -4), (-3, -1), (0, 3), (4, 10)]:
